@@ -52,6 +52,7 @@ def check_smart_rotation(fx, R):
         R.undecided('R1', 'SmartRotation3D', 'constructor/init tables not readable as matrices')
         return
     R.used(md['ctor'], md['init'])
+    rot.check_forwarding(fx, R, 'R1')
     x, y, z = md['angles']
     Rx, Ry, Rz = rot.canon(x, y, z)
     want = Rz * Ry * Rx
